@@ -21,6 +21,7 @@ import (
 
 	"github.com/google/wuffs/lib/rac"
 
+	"verif/racx"
 	"verif/sim"
 )
 
@@ -235,7 +236,7 @@ func (g graphSpec) assemble() []byte {
 	for i := 0; i < g.N; i++ {
 		var elems []gElem
 		if g.Long {
-			elems = append(elems, gElem{ttag: 0xFD, cptr: int64(stubCodecID & 0xFFFFFFFFFFFF), clen: uint8(stubCodecID >> 48), stag: 0})
+			elems = append(elems, gElem{ttag: 0xFD, cptr: int64(racx.StubCodecID & 0xFFFFFFFFFFFF), clen: uint8(racx.StubCodecID >> 48), stag: 0})
 		}
 		for k := 0; k < g.Pre[i]; k++ {
 			elems = append(elems, gElem{ttag: 0xFF, stag: 0xFF, cptr: payOff})
@@ -305,22 +306,22 @@ func mutateNode(t *sim.Tape, file []byte, nodes []int64, off int64) string {
 			i = 1 % (a + 1)
 		}
 		if i > 0 {
-			old := sU48(n[8*i:])
-			v := []int64{old + 1, old - 1, 0, sU48(n[8*a:]), sU48(n[8*a:]) + 1, int64(t.Draw(1 << 20))}[t.Draw(6)]
+			old := racx.U48(n[8*i:])
+			v := []int64{old + 1, old - 1, 0, racx.U48(n[8*a:]), racx.U48(n[8*a:]) + 1, int64(t.Draw(1 << 20))}[t.Draw(6)]
 			if v < 0 {
 				v = 0
 			}
 			putU48(n[8*i:], v)
 		}
 	case 3:
-		max := sU48(n[16*a+8:])
+		max := racx.U48(n[16*a+8:])
 		v := []int64{max, max + 1, max - 1, int64(len(file)), int64(len(file)) + 1, 0, (1 << 48) - 1, int64(t.Draw(len(file) + 1))}[t.Draw(8)]
 		if v < 0 {
 			v = 0
 		}
 		putU48(n[cbase+8*i:], v)
 	case 4:
-		max := sU48(n[16*a+8:])
+		max := racx.U48(n[16*a+8:])
 		v := []int64{max + 1, max - 1, 0, (1 << 48) - 1, int64(t.Draw(len(file) + 1))}[t.Draw(5)]
 		if v < 0 {
 			v = 0
@@ -349,7 +350,7 @@ func mutateNode(t *sim.Tape, file []byte, nodes []int64, off int64) string {
 	case 11:
 		n[8*t.Draw(a+1)+6] = byte(1 + t.Draw(255))
 	case 12:
-		old := sU48(n[8*a:])
+		old := racx.U48(n[8*a:])
 		v := []int64{old + 1, old - 1, 0, (1 << 48) - 1}[t.Draw(4)]
 		if v < 0 {
 			v = 0
@@ -498,10 +499,10 @@ func runC15(t *sim.Tape, opt sim.RunOpt) *sim.Outcome {
 	o.Nontrivial = nmut > 0 || opt.Mode == "graph"
 
 	// Reference opinion (probe only): is this file spec-legal?
-	var sf *specFile
+	var sf *racx.SpecFile
 	var specErr error
 	if claimed == int64(len(file)) {
-		sf, specErr = ValidateRAC(file, 100000)
+		sf, specErr = racx.ValidateRAC(file, 100000)
 		if specErr == nil {
 			o.Probe("spec_legal_file")
 		} else {
@@ -731,7 +732,7 @@ func runC15(t *sim.Tape, opt sim.RunOpt) *sim.Outcome {
 			return fail("decode_not_repeatable", "", "two decodes of the same bytes differ at byte %d (lengths %d, %d)", firstDiff(out1, out2), len(out1), len(out2))
 		}
 		if sf != nil && specErr == nil {
-			if ref, ok, derr := DecodeSpec(file, sf); ok && derr == nil && len(ref) <= maxOut {
+			if ref, ok, derr := racx.DecodeSpec(file, sf); ok && derr == nil && len(ref) <= maxOut {
 				if bytes.Equal(ref, out1) {
 					o.Probe("agrees_with_spec_decoder")
 				} else {
